@@ -77,3 +77,15 @@ Check C13_premises_are_satisfiable :
   (pbit_clear bye /\ exists pv, typed_parse VBye bye = Ok pv) /\
   (pbit_clear nack /\ exists pv, typed_parse VTfb nack = Ok pv).
 Print Assumptions C13_premises_are_satisfiable.
+
+(* pad_packet on an unpadded encoder image is the encoder's image with that padding *)
+Theorem C13_padding_an_image_gives_the_padded_image :
+  forall (pt cnt : N) (n : nat) (body : bytes) (p : nat),
+    4 + length body = n -> legal_pad p ->
+    pad_packet (image pt 0 cnt n body) p = image pt (N.of_nat p) cnt (n + p) body.
+Proof. exact pad_packet_image. Qed.
+Check C13_padding_an_image_gives_the_padded_image :
+  forall (pt cnt : N) (n : nat) (body : bytes) (p : nat),
+    4 + length body = n -> legal_pad p ->
+    pad_packet (image pt 0 cnt n body) p = image pt (N.of_nat p) cnt (n + p) body.
+Print Assumptions C13_padding_an_image_gives_the_padded_image.
